@@ -394,6 +394,13 @@ func (fv *FV) specEnv(st *State, atPos token.Pos, results []Term, post bool) *Sp
 		if v, ok := fv.pk.Types.Scope().Lookup(name).(*types.Var); ok {
 			return fv.globalVar(v), true
 		}
+		// a local that was renamed since the contract was written
+		if v := fv.rebind(name); v != nil {
+			if _, has := st.vars[v]; has || st.alias[v] != nil {
+				fv.note("contract name " + name + " rebound to the renamed local " + v.Name())
+				return fv.readVar(st, v), true
+			}
+		}
 		return Term{}, false
 	}
 	return env
@@ -581,4 +588,74 @@ func (fv *FV) unsignedFacts(t Term, gt types.Type, depth int) []string {
 		}
 	}
 	return nil
+}
+
+
+// ---- binding table: robustness of contracts to renamed locals ------------------------------------------------------
+// bindings.json (written with -write-bindings when contracts are written, committed in /verif/contracts) records, per
+// function under contract, every local variable with its declaration ordinal and type. When a contract mentions a name
+// that no longer exists, the local with the recorded ordinal and the same type is used instead (a rename keeps both).
+
+type LocalBinding struct {
+	Name    string `json:"name"`
+	Ordinal int    `json:"ordinal"`
+	Type    string `json:"type"`
+}
+
+var bindingTable map[string][]LocalBinding
+
+// localsOf lists the variables declared inside fd (parameters, results and body), ordered by position.
+func localsOf(info *types.Info, fd *ast.FuncDecl) []*types.Var {
+	var out []*types.Var
+	ast.Inspect(fd, func(n ast.Node) bool {
+		if id, ok := n.(*ast.Ident); ok {
+			if v, ok := info.Defs[id].(*types.Var); ok && !v.IsField() {
+				out = append(out, v)
+			}
+		}
+		return true
+	})
+	sort.Slice(out, func(i, j int) bool { return out[i].Pos() < out[j].Pos() })
+	return out
+}
+
+func bindingsOf(info *types.Info, fd *ast.FuncDecl) []LocalBinding {
+	var out []LocalBinding
+	for i, v := range localsOf(info, fd) {
+		out = append(out, LocalBinding{Name: v.Name(), Ordinal: i, Type: types.TypeString(v.Type(), nil)})
+	}
+	return out
+}
+
+// rebind: the contract name is unknown in the current source; find the local that took its place.
+func (fv *FV) rebind(name string) *types.Var {
+	if bindingTable == nil || fv.fc.Decl == nil {
+		return nil
+	}
+	key := fv.p.funcDisplayName(fv.fc)
+	var want *LocalBinding
+	n := 0
+	for i := range bindingTable[key] {
+		if bindingTable[key][i].Name == name {
+			want = &bindingTable[key][i]
+			n++
+		}
+	}
+	if want == nil || n != 1 {
+		return nil
+	}
+	locals := localsOf(fv.info, fv.fc.Decl)
+	if len(locals) != len(bindingTable[key]) || want.Ordinal >= len(locals) {
+		return nil // declarations were added or removed: ordinals no longer line up
+	}
+	v := locals[want.Ordinal]
+	if types.TypeString(v.Type(), nil) != want.Type {
+		return nil
+	}
+	for _, b := range bindingTable[key] {
+		if b.Name == v.Name() {
+			return nil // the candidate's name was already a local before: not a rename
+		}
+	}
+	return v
 }
